@@ -91,6 +91,20 @@ fn crash_check_ro(steps: &[Step], torn: bool, read_only_last: bool) -> Option<St
                 drop(rc);
                 let mut rc2 = match open_core(&d2) { Ok(c) => c, Err(e) => return Some(format!("crash after {k}: second reopen failed: {e}")) };
                 if let Some(m) = same(&mut rc2, &m2) { return Some(format!("crash after {k}: after one more append and reopen: {m}")); }
+                if read_only_last {
+                    // C12: whatever the interrupted call left behind, once make_read_only RETURNS no file holds the secret key
+                    let was = rc2.info().writeable;
+                    match block_on(rc2.make_read_only()) { Ok(r) if r == was => {}, Ok(r) => return Some(format!("crash after {k}: make_read_only on the recovered core (writable: {was}) returned {r}")),
+                        Err(e) => return Some(format!("crash after {k}: make_read_only on the recovered core failed: {e}")) }
+                    let secret = crate::verif_exec::fixed_key().secret.as_ref().unwrap().to_bytes();
+                    let names = ["tree", "data", "bitfield", "oplog"];
+                    for (n, f) in d2.files().iter().enumerate() { if f.windows(32).any(|w| w == &secret[..]) {
+                        return Some(format!("crash after {k} of {} storage operations{}: the core recovered (writable: {was}), make_read_only returned, and the {} file still contains the secret key", journal.len(), cut.map(|c| format!(" (+{c} torn bytes)")).unwrap_or_default(), names[n])); } }
+                    drop(rc2);
+                    let mut rc3 = match open_core(&d2) { Ok(c) => c, Err(e) => return Some(format!("crash after {k}: reopen after the second make_read_only failed: {e}")) };
+                    if rc3.info().writeable { return Some(format!("crash after {k}: writable after make_read_only returned")); }
+                    if let Some(m) = same(&mut rc3, &m2) { return Some(format!("crash after {k}: after make_read_only on the recovered core: {m}")); }
+                }
             }
         }
         None
